@@ -50,6 +50,7 @@ type HarnessCfg struct {
 	Cross       string
 	Params      map[string]int64 // harness parameters readable through vxParam("name")
 	Stubs       map[string]Intrinsic
+	EngineReplay bool    // when the native replay cannot realise the schedule/fault, confirm by concrete re-execution of the real code's SSA with the model's values
 	LoopCheck   bool     // C12: assert SCEV facts of the real loop analysis during execution
 	MaxDepth    int      // call-depth bound (cut like an unwinding bound)
 	Concrete    []uint64 // replay mode: vx primitives return these values instead of symbols
